@@ -5,13 +5,24 @@
 
    Statements only; proofs live in Proofs/AsOfProofs.v.  The model (Model/AsOf.v) follows
    the candidate-filter composition at the top of Memvid::search and get_replay_frame_ids
-   line by line, INCLUDING the branch "Fall back to sketch-only if intersection is empty",
-   which replaces the filter (date range ∩ replay set) by the sketch candidate set.  That
-   branch refutes the property as stated (C11_as_of_refuted, finding F-C11-1); outside the
-   class of inputs that reach it (known_fallback) the property is proved for all stores,
-   requests, sketch candidate sets and engines (…_outside_known).  The *_fixed theorems are
-   the same statements, with no class excluded, for the repaired composition
-   (candidate_filter_fixed: empty response instead of the fallback).
+   line by line, as of commit d76304f: when the filter built so far (date range ∩ temporal
+   ∩ replay set) and the non-empty sketch candidate set are disjoint, the sketch pre-filter
+   is dropped and the filter is kept (`Some(existing)`).
+
+   First clause (no frame from the future): proved for ALL stores, requests, sketch
+   candidate sets and engines, no class excluded (theorems 2, 3, 3').
+   Second clause (adding a filter never adds a hit): REFUTED as stated
+   (C11_monotone_refuted, finding F-C11-2): in that same branch the as-of request runs
+   WITHOUT the sketch and finds a genuine match that the sketch rejects (a sketch false
+   negative), while the request without as_of_* still runs with the sketch set and misses
+   it.  Proved (4, 4') outside exactly that branch (sketch_disjoint), proved for all inputs
+   (5, 5') under the hypothesis that the sketch has no false negative for the query, and
+   proved with no condition for requests that do not run the sketch stage (6).  The root
+   cause is sketch recall (property C09), not the as-of code.
+
+   The code before d76304f replaced the filter by the sketch set in that branch and
+   returned frames from the future (fixed finding F-C11-1); the lemmas C11_old_* at the
+   end keep that refutation as history.
 
    The engine (Tantivy / lex fallback / filters-only scan + query evaluation) is a Section
    variable `engine : option (list N) -> list N` (frame ids returned for a candidate
@@ -38,178 +49,44 @@ Proof. exact replay_ids_spec. Qed.
 Print Assumptions C11_replay_ids_exact.
 
 (* (2) whenever as_of_* is given, the final candidate filter exists and is a subset of
-       the replay id set -- for every store, request and sketch candidate set outside the
-       known class. *)
-Theorem C11_filter_subset_replay_outside_known :
+       the replay id set -- every store, request and sketch candidate set. *)
+Theorem C11_filter_subset_replay :
   forall (st : store) (rq : request) (cands : list N) (cf : option (list N)),
     asof_given rq = true ->
-    known_fallback st rq cands = false ->
     candidate_filter st rq cands = Cont cf ->
-    exists l, cf = Some l /\
-      forall x, In x l -> In x (replay_ids (st_frames st) (rq_as_of_frame rq) (rq_as_of_ts rq)).
-Proof.
-  intros st rq cands cf Ha Hk Hc.
-  exact (filter_subset_replay_gen false st rq cands cf Ha (or_intror Hk) Hc).
-Qed.
-Print Assumptions C11_filter_subset_replay_outside_known.
-
-(* (3) hence every hit is an active frame with id <= n and timestamp <= t. *)
-Theorem C11_hits_not_future_outside_known :
-  forall (engine : option (list N) -> list N),
-    (forall l x, In x (engine (Some l)) -> In x l) ->
-  forall (st : store) (rq : request) (cands : list N) (x : N),
-    asof_given rq = true ->
-    known_fallback st rq cands = false ->
-    In x (search_ids engine st rq cands) ->
-    exists f, In f (st_frames st) /\ f_id f = x /\ f_active f = true /\
-              (forall n, rq_as_of_frame rq = Some n -> (x <= n)%N) /\
-              (forall t, rq_as_of_ts rq = Some t -> (f_ts f <= t)%Z).
-Proof.
-  intros engine Hs st rq cands x Ha Hk H.
-  exact (hits_not_future_gen engine Hs false st rq cands x Ha (or_intror Hk) H).
-Qed.
-Print Assumptions C11_hits_not_future_outside_known.
-
-(* (3') frame ids are unique in a real table (frame.id is the index): then THE frame that
-        carries the hit's id is active, has id <= n and timestamp <= t. *)
-Theorem C11_hit_frame_not_future_outside_known :
-  forall (engine : option (list N) -> list N),
-    (forall l x, In x (engine (Some l)) -> In x l) ->
-  forall (st : store) (rq : request) (cands : list N) (x : N) (f : frame),
-    NoDup (map f_id (st_frames st)) ->
-    asof_given rq = true ->
-    known_fallback st rq cands = false ->
-    In x (search_ids engine st rq cands) ->
-    In f (st_frames st) -> f_id f = x ->
-    f_active f = true /\
-    (forall n, rq_as_of_frame rq = Some n -> (f_id f <= n)%N) /\
-    (forall t, rq_as_of_ts rq = Some t -> (f_ts f <= t)%Z).
-Proof.
-  intros engine Hs st rq cands x f Hnd Ha Hk H Hf Ef.
-  exact (hits_not_future_unique_gen engine Hs false st rq cands x f Hnd Ha (or_intror Hk) H Hf Ef).
-Qed.
-Print Assumptions C11_hit_frame_not_future_outside_known.
-
-(* (4) adding as_of_* never adds a hit (non-truncating regime), outside the known class. *)
-Theorem C11_monotone_outside_known :
-  forall (engine : option (list N) -> list N),
-    (forall l1 l2, incl l1 l2 -> incl (engine (Some l1)) (engine (Some l2))) ->
-    (forall l, incl (engine (Some l)) (engine None)) ->
-  forall (st : store) (rq : request) (cands : list N) (x : N),
-    known_fallback st rq cands = false ->
-    In x (search_ids engine st rq cands) ->
-    In x (search_ids engine st (drop_as_of rq) cands).
-Proof.
-  intros engine Hm Hn st rq cands x Hk H.
-  exact (monotone_gen engine Hm Hn false st rq cands (or_intror Hk) x H).
-Qed.
-Print Assumptions C11_monotone_outside_known.
-
-(* (4') "adding EITHER filter": tightening a cut-off, or adding one next to the other,
-        never adds a hit.  cut_le_N c c' / cut_le_Z c c' = "c' is no cut-off, or both are
-        given and c <= c'"; with_as_of rq a t = rq with the cut-offs a, t. *)
-Theorem C11_tighten_monotone_outside_known :
-  forall (engine : option (list N) -> list N),
-    (forall l1 l2, incl l1 l2 -> incl (engine (Some l1)) (engine (Some l2))) ->
-    (forall l, incl (engine (Some l)) (engine None)) ->
-  forall (st : store) (rq : request) (aof' : option N) (aot' : option Z) (cands : list N) (x : N),
-    cut_le_N (rq_as_of_frame rq) aof' = true ->
-    cut_le_Z (rq_as_of_ts rq) aot' = true ->
-    known_fallback st rq cands = false ->
-    In x (search_ids engine st rq cands) ->
-    In x (search_ids engine st (with_as_of rq aof' aot') cands).
-Proof.
-  intros engine Hm Hn st rq aof' aot' cands x H1 H2 Hk H.
-  exact (monotone_weaker_gen engine Hm Hn false st rq aof' aot' cands H1 H2 (or_intror Hk) x H).
-Qed.
-Print Assumptions C11_tighten_monotone_outside_known.
-
-(* ---- the refutation (finding F-C11-1) ------------------------------------------------
-   Four active frames 0..3 (timestamps 10,20,30,40), sketches present, a text query whose
-   sketch candidates are {3} and which matches frame 3.  as_of_frame = 1: the replay set
-   {0,1} and the sketch set {3} are disjoint and both non-empty, the code falls back to
-   {3}, and frame 3 > 1 is returned.  Same with as_of_ts = 25 (frame 3 has timestamp 40).
-   The engine is sound, monotone and filter-respecting (it is the table engine). *)
-Definition w_frames : list frame :=
-  [mkFrame 0 10 true; mkFrame 1 20 true; mkFrame 2 30 true; mkFrame 3 40 true].
-Definition w_store : store := mkStore w_frames None true.
-Definition w_rq_frame : request := mkReq None None (Some 1%N) None true false.
-Definition w_rq_ts : request := mkReq None None None (Some 25%Z) true false.
-Definition w_cands : list N := [3%N].
-Definition w_engine := table_engine [3%N].
-
-Theorem C11_as_of_refuted :
-  exists (engine : option (list N) -> list N) (st : store) (rq : request) (cands : list N) (x : N) (f : frame),
-    (forall l y, In y (engine (Some l)) -> In y l) /\
-    NoDup (map f_id (st_frames st)) /\
-    rq_as_of_frame rq = Some 1%N /\
-    In x (search_ids engine st rq cands) /\
-    In f (st_frames st) /\ f_id f = x /\ (1 < f_id f)%N /\
-    known_fallback st rq cands = true /\
-    (* the two sets of the finding: replay set and sketch set, disjoint, both non-empty *)
-    replay_ids (st_frames st) (rq_as_of_frame rq) (rq_as_of_ts rq) = [0%N; 1%N] /\ cands = [3%N].
-Proof.
-  exists w_engine, w_store, w_rq_frame, w_cands, 3%N, (mkFrame 3 40 true).
-  split; [intros l y; apply table_engine_sound|].
-  split; [repeat constructor; cbn; intuition discriminate|].
-  vm_compute. repeat split; auto.
-Qed.
-Print Assumptions C11_as_of_refuted.
-
-Theorem C11_as_of_ts_refuted :
-  exists (engine : option (list N) -> list N) (st : store) (rq : request) (cands : list N) (x : N) (f : frame),
-    (forall l y, In y (engine (Some l)) -> In y l) /\
-    NoDup (map f_id (st_frames st)) /\
-    rq_as_of_ts rq = Some 25%Z /\
-    In x (search_ids engine st rq cands) /\
-    In f (st_frames st) /\ f_id f = x /\ (25 < f_ts f)%Z /\
-    known_fallback st rq cands = true.
-Proof.
-  exists w_engine, w_store, w_rq_ts, w_cands, 3%N, (mkFrame 3 40 true).
-  split; [intros l y; apply table_engine_sound|].
-  split; [repeat constructor; cbn; intuition discriminate|].
-  vm_compute. repeat split; auto.
-Qed.
-Print Assumptions C11_as_of_ts_refuted.
-
-(* what happens inside the known class: the engine is handed the sketch set, none of whose
-   members is in the filter built so far; with only as_of_* given, that filter is the
-   replay set, so EVERY frame the engine may return is outside the replay set, and the
-   request with as_of_* runs with the very same filter as the request without. *)
-Theorem C11_known_class_characterised :
-  forall (st : store) (rq : request) (cands : list N) (x : N),
-    rq_date rq = None -> rq_temporal rq = None -> asof_given rq = true ->
-    known_fallback st rq cands = true ->
-    candidate_filter st rq cands = Cont (Some cands) /\
-    candidate_filter st (drop_as_of rq) cands = Cont (Some cands) /\
-    (In x cands -> ~ In x (replay_ids (st_frames st) (rq_as_of_frame rq) (rq_as_of_ts rq))).
-Proof.
-  intros st rq cands x Hd Ht Ha Hk.
-  destruct (fallback_all_future st rq cands x Hd Ht Ha Hk) as [H1 H2].
-  destruct (fallback_ignores_asof st rq cands Hd Ht Hk) as [_ H3]. auto.
-Qed.
-Print Assumptions C11_known_class_characterised.
-
-(* ---- the repaired composition: same statements, no class excluded -------------------- *)
-Theorem C11_fixed_filter_subset_replay :
-  forall (st : store) (rq : request) (cands : list N) (cf : option (list N)),
-    asof_given rq = true ->
-    candidate_filter_fixed st rq cands = Cont cf ->
     exists l, cf = Some l /\
       forall x, In x l -> In x (replay_ids (st_frames st) (rq_as_of_frame rq) (rq_as_of_ts rq)).
 Proof.
   intros st rq cands cf Ha Hc.
   exact (filter_subset_replay_gen true st rq cands cf Ha (or_introl eq_refl) Hc).
 Qed.
-Print Assumptions C11_fixed_filter_subset_replay.
+Print Assumptions C11_filter_subset_replay.
 
-Theorem C11_fixed_hits_not_future :
+(* (3) hence every hit is an active frame with id <= n and timestamp <= t. *)
+Theorem C11_hits_not_future :
+  forall (engine : option (list N) -> list N),
+    (forall l x, In x (engine (Some l)) -> In x l) ->
+  forall (st : store) (rq : request) (cands : list N) (x : N),
+    asof_given rq = true ->
+    In x (search_ids engine st rq cands) ->
+    exists f, In f (st_frames st) /\ f_id f = x /\ f_active f = true /\
+              (forall n, rq_as_of_frame rq = Some n -> (x <= n)%N) /\
+              (forall t, rq_as_of_ts rq = Some t -> (f_ts f <= t)%Z).
+Proof.
+  intros engine Hs st rq cands x Ha H.
+  exact (hits_not_future_gen engine Hs true st rq cands x Ha (or_introl eq_refl) H).
+Qed.
+Print Assumptions C11_hits_not_future.
+
+(* (3') frame ids are unique in a real table (frame.id is the index): then THE frame that
+        carries the hit's id is active, has id <= n and timestamp <= t. *)
+Theorem C11_hit_frame_not_future :
   forall (engine : option (list N) -> list N),
     (forall l x, In x (engine (Some l)) -> In x l) ->
   forall (st : store) (rq : request) (cands : list N) (x : N) (f : frame),
     NoDup (map f_id (st_frames st)) ->
     asof_given rq = true ->
-    In x (search_ids_fixed engine st rq cands) ->
+    In x (search_ids engine st rq cands) ->
     In f (st_frames st) -> f_id f = x ->
     f_active f = true /\
     (forall n, rq_as_of_frame rq = Some n -> (f_id f <= n)%N) /\
@@ -218,50 +95,159 @@ Proof.
   intros engine Hs st rq cands x f Hnd Ha H Hf Ef.
   exact (hits_not_future_unique_gen engine Hs true st rq cands x f Hnd Ha (or_introl eq_refl) H Hf Ef).
 Qed.
-Print Assumptions C11_fixed_hits_not_future.
+Print Assumptions C11_hit_frame_not_future.
 
-Theorem C11_fixed_monotone :
+(* ---- second clause ------------------------------------------------------------------- *)
+
+(* the refutation (finding F-C11-2).  Four active frames; the query matches frames 1 and 3
+   (engine table [1;3]); the sketch candidates are {3}: frame 1 is a sketch false negative.
+   as_of_frame = 1: the replay set {0,1} and the sketch set {3} are disjoint, the sketch is
+   dropped, the filter {0,1} is kept and frame 1 is returned -- correctly inside the window.
+   The same request without as_of_* runs with the sketch set {3} and returns only frame 3. *)
+Definition w_frames : list frame :=
+  [mkFrame 0 10 true; mkFrame 1 20 true; mkFrame 2 30 true; mkFrame 3 40 true].
+Definition w_store : store := mkStore w_frames None true.
+Definition w_rq_frame : request := mkReq None None (Some 1%N) None true false.
+Definition w_rq_ts : request := mkReq None None None (Some 25%Z) true false.
+Definition w_cands : list N := [3%N].
+Definition w_engine := table_engine [1%N; 3%N].
+
+Theorem C11_monotone_refuted :
+  exists (engine : option (list N) -> list N) (st : store) (rq : request) (cands : list N) (x : N),
+    (forall l y, In y (engine (Some l)) -> In y l) /\
+    (forall l1 l2, incl l1 l2 -> incl (engine (Some l1)) (engine (Some l2))) /\
+    (forall l, incl (engine (Some l)) (engine None)) /\
+    In x (search_ids engine st rq cands) /\
+    ~ In x (search_ids engine st (drop_as_of rq) cands) /\
+    sketch_disjoint st rq cands = true /\
+    (* x is a genuine match the sketch rejects *)
+    In x (engine None) /\ ~ In x cands.
+Proof.
+  exists w_engine, w_store, w_rq_frame, w_cands, 1%N.
+  split; [intros l y; apply table_engine_sound|].
+  split; [apply table_engine_mono|]. split; [apply table_engine_none|].
+  vm_compute. repeat split; auto; intros [H|H]; try discriminate; destruct H; discriminate.
+Qed.
+Print Assumptions C11_monotone_refuted.
+
+(* (4) adding as_of_* never adds a hit, outside the empty-intersection branch. *)
+Theorem C11_monotone_outside_known :
   forall (engine : option (list N) -> list N),
+    (forall l x, In x (engine (Some l)) -> In x l) ->
     (forall l1 l2, incl l1 l2 -> incl (engine (Some l1)) (engine (Some l2))) ->
     (forall l, incl (engine (Some l)) (engine None)) ->
   forall (st : store) (rq : request) (cands : list N) (x : N),
-    In x (search_ids_fixed engine st rq cands) ->
-    In x (search_ids_fixed engine st (drop_as_of rq) cands).
+    sketch_disjoint st rq cands = false ->
+    In x (search_ids engine st rq cands) ->
+    In x (search_ids engine st (drop_as_of rq) cands).
 Proof.
-  intros engine Hm Hn st rq cands x H.
-  exact (monotone_gen engine Hm Hn true st rq cands (or_introl eq_refl) x H).
+  intros engine Hs Hm Hn st rq cands x Hk H.
+  exact (monotone_gen engine Hs Hm Hn true st rq cands (or_introl Hk) x H).
 Qed.
-Print Assumptions C11_fixed_monotone.
+Print Assumptions C11_monotone_outside_known.
 
-Theorem C11_fixed_tighten_monotone :
+(* (4') "adding EITHER filter": tightening a cut-off, or adding one next to the other,
+        never adds a hit.  cut_le_N c c' / cut_le_Z c c' = "c' is no cut-off, or both are
+        given and c <= c'"; with_as_of rq a t = rq with the cut-offs a, t. *)
+Theorem C11_tighten_monotone_outside_known :
   forall (engine : option (list N) -> list N),
+    (forall l x, In x (engine (Some l)) -> In x l) ->
     (forall l1 l2, incl l1 l2 -> incl (engine (Some l1)) (engine (Some l2))) ->
     (forall l, incl (engine (Some l)) (engine None)) ->
   forall (st : store) (rq : request) (aof' : option N) (aot' : option Z) (cands : list N) (x : N),
     cut_le_N (rq_as_of_frame rq) aof' = true ->
     cut_le_Z (rq_as_of_ts rq) aot' = true ->
-    In x (search_ids_fixed engine st rq cands) ->
-    In x (search_ids_fixed engine st (with_as_of rq aof' aot') cands).
+    sketch_disjoint st rq cands = false ->
+    In x (search_ids engine st rq cands) ->
+    In x (search_ids engine st (with_as_of rq aof' aot') cands).
 Proof.
-  intros engine Hm Hn st rq aof' aot' cands x H1 H2 H.
-  exact (monotone_weaker_gen engine Hm Hn true st rq aof' aot' cands H1 H2 (or_introl eq_refl) x H).
+  intros engine Hs Hm Hn st rq aof' aot' cands x H1 H2 Hk H.
+  exact (monotone_weaker_gen engine Hs Hm Hn true st rq aof' aot' cands H1 H2 (or_introl Hk) x H).
 Qed.
-Print Assumptions C11_fixed_tighten_monotone.
+Print Assumptions C11_tighten_monotone_outside_known.
 
-(* the repair changes nothing outside the known class *)
-Theorem C11_fixed_agrees_outside_known :
-  forall (st : store) (rq : request) (cands : list N),
-    known_fallback st rq cands = false ->
-    candidate_filter_fixed st rq cands = candidate_filter st rq cands.
-Proof. exact fixed_agrees_outside_known. Qed.
-Print Assumptions C11_fixed_agrees_outside_known.
+(* (5) for ALL inputs, when the sketch has no false negative for the query (everything the
+       engine returns unfiltered is among the sketch candidates). *)
+Theorem C11_monotone_if_sketch_complete :
+  forall (engine : option (list N) -> list N),
+    (forall l x, In x (engine (Some l)) -> In x l) ->
+    (forall l1 l2, incl l1 l2 -> incl (engine (Some l1)) (engine (Some l2))) ->
+    (forall l, incl (engine (Some l)) (engine None)) ->
+  forall (st : store) (rq : request) (cands : list N) (x : N),
+    (forall y, In y (engine None) -> In y cands) ->
+    In x (search_ids engine st rq cands) ->
+    In x (search_ids engine st (drop_as_of rq) cands).
+Proof.
+  intros engine Hs Hm Hn st rq cands x Hc H.
+  exact (monotone_gen engine Hs Hm Hn true st rq cands (or_intror (conj eq_refl Hc)) x H).
+Qed.
+Print Assumptions C11_monotone_if_sketch_complete.
+
+(* (5') *)
+Theorem C11_tighten_monotone_if_sketch_complete :
+  forall (engine : option (list N) -> list N),
+    (forall l x, In x (engine (Some l)) -> In x l) ->
+    (forall l1 l2, incl l1 l2 -> incl (engine (Some l1)) (engine (Some l2))) ->
+    (forall l, incl (engine (Some l)) (engine None)) ->
+  forall (st : store) (rq : request) (aof' : option N) (aot' : option Z) (cands : list N) (x : N),
+    cut_le_N (rq_as_of_frame rq) aof' = true ->
+    cut_le_Z (rq_as_of_ts rq) aot' = true ->
+    (forall y, In y (engine None) -> In y cands) ->
+    In x (search_ids engine st rq cands) ->
+    In x (search_ids engine st (with_as_of rq aof' aot') cands).
+Proof.
+  intros engine Hs Hm Hn st rq aof' aot' cands x H1 H2 Hc H.
+  exact (monotone_weaker_gen engine Hs Hm Hn true st rq aof' aot' cands H1 H2 (or_intror (conj eq_refl Hc)) x H).
+Qed.
+Print Assumptions C11_tighten_monotone_if_sketch_complete.
+
+(* (6) requests that do not run the sketch stage (no_sketch, no text terms, or no sketches
+       in the memory): monotone with no condition at all. *)
+Theorem C11_tighten_monotone_without_sketch :
+  forall (engine : option (list N) -> list N),
+    (forall l x, In x (engine (Some l)) -> In x l) ->
+    (forall l1 l2, incl l1 l2 -> incl (engine (Some l1)) (engine (Some l2))) ->
+    (forall l, incl (engine (Some l)) (engine None)) ->
+  forall (st : store) (rq : request) (aof' : option N) (aot' : option Z) (cands : list N) (x : N),
+    sketch_on st rq = false ->
+    cut_le_N (rq_as_of_frame rq) aof' = true ->
+    cut_le_Z (rq_as_of_ts rq) aot' = true ->
+    In x (search_ids engine st rq cands) ->
+    In x (search_ids engine st (with_as_of rq aof' aot') cands).
+Proof.
+  intros engine Hs Hm Hn st rq aof' aot' cands x Hoff H1 H2 H.
+  exact (monotone_no_sketch_gen engine Hs Hm Hn true st rq aof' aot' cands Hoff H1 H2 x H).
+Qed.
+Print Assumptions C11_tighten_monotone_without_sketch.
+
+(* what happens inside the known class: the engine is handed exactly the filter built so
+   far (hard filters kept, sketch dropped), which has no member in the sketch set -- so
+   every hit of such a request is a frame the sketch rejects (and, by (3), not from the
+   future). *)
+Theorem C11_known_class_characterised :
+  forall (engine : option (list N) -> list N),
+    (forall l x, In x (engine (Some l)) -> In x l) ->
+  forall (st : store) (rq : request) (cands : list N) (x : N),
+    sketch_disjoint st rq cands = true ->
+    (exists existing, pre_sketch st rq = Cont (Some existing) /\ existing <> [] /\ cands <> [] /\
+                      candidate_filter st rq cands = Cont (Some existing)) /\
+    (In x (search_ids engine st rq cands) -> ~ In x cands).
+Proof.
+  intros engine Hs st rq cands x Hk.
+  destruct (disjoint_keeps_hard_filter st rq cands Hk) as [l [Ep [Hl [Hc [Hf Hout]]]]].
+  split; [exists l; auto|].
+  unfold search_ids, search_ids_gen. fold candidate_filter. rewrite Hf.
+  intros Hx Hin. apply (Hout x Hin). eapply Hs. exact Hx.
+Qed.
+Print Assumptions C11_known_class_characterised.
 
 (* ---- non-vacuity ---------------------------------------------------------------------
    The engine hypotheses are satisfiable (every table engine meets all three), and the
-   hypotheses of (2)-(4) are met by a request that really filters: six frames, one deleted,
-   timestamps not monotone in the id, a date range, both cut-offs, sketches on with
-   candidates {1,2,4,5}: replay set {0,1,4} -> date ∩ replay = {1,4} -> ∩ sketch = {1,4};
-   the engine matches {1,2,4,5}: hits {1,4}; without as_of_* the hits are {1,2,4,5}. *)
+   hypotheses of the theorems are met by a request that really filters: six frames, one
+   deleted, timestamps not monotone in the id, a date range, both cut-offs, sketches on with
+   candidates {1,2,4,5} = everything the engine matches (sketch complete): replay set
+   {0,1,4} -> date ∩ replay = {1,4} -> ∩ sketch = {1,4}; hits {1,4}; without as_of_* the
+   hits are {1,2,4,5}. *)
 Example C11_engine_hypotheses_satisfiable :
   forall U : list N,
     (forall l x, In x (table_engine U (Some l)) -> In x l) /\
@@ -282,27 +268,97 @@ Definition nv_cands : list N := [1; 2; 4; 5]%N.
 Definition nv_engine := table_engine [1; 2; 4; 5]%N.
 
 Example C11_nonvacuous :
-  asof_given nv_rq = true /\ known_fallback nv_store nv_rq nv_cands = false /\
+  asof_given nv_rq = true /\ sketch_disjoint nv_store nv_rq nv_cands = false /\
   NoDup (map f_id (st_frames nv_store)) /\
+  (forall y, In y (nv_engine None) -> In y nv_cands) /\
   replay_ids nv_frames (Some 4%N) (Some 500%Z) = [0; 1; 4]%N /\
   candidate_filter nv_store nv_rq nv_cands = Cont (Some [1; 4]%N) /\
   search_ids nv_engine nv_store nv_rq nv_cands = [1; 4]%N /\
   search_ids nv_engine nv_store (drop_as_of nv_rq) nv_cands = [1; 2; 4; 5]%N /\
-  candidate_filter_fixed nv_store nv_rq nv_cands = Cont (Some [1; 4]%N) /\
-  (* (4'): only as_of_ts = 500 (the frame cut-off removed): {1,4,5}; as_of_frame 4 -> 5: same *)
+  (* (4'): only as_of_ts = 500 (the frame cut-off removed): {1,4,5} *)
   cut_le_N (rq_as_of_frame nv_rq) None = true /\ cut_le_Z (rq_as_of_ts nv_rq) (Some 500%Z) = true /\
   search_ids nv_engine nv_store (with_as_of nv_rq None (Some 500%Z)) nv_cands = [1; 4; 5]%N.
 Proof.
   split; [reflexivity|]. split; [vm_compute; reflexivity|].
   split; [repeat constructor; cbn; intuition discriminate|].
+  split; [intros y H; exact H|].
   vm_compute. repeat split.
 Qed.
 
 (* the early exits are reachable: cut-off below every frame (site 5), date range disjoint
-   from the replay set (site 6); the repaired code exits at site 7 on the witness *)
-Example C11_exits_reachable :
+   from the replay set (site 6); the empty-intersection branch is reachable and keeps the
+   replay set as the filter (witness of F-C11-2, and the request of fixed F-C11-1 whose
+   only match is frame 3: nothing is returned any more) *)
+Example C11_branches_reachable :
   candidate_filter nv_store (mkReq None None None (Some 10%Z) true false) nv_cands = Exit 5 /\
   candidate_filter nv_store (mkReq (Some (Some 800, None)%Z) None (Some 1%N) None true false) nv_cands = Exit 6 /\
-  candidate_filter_fixed w_store w_rq_frame w_cands = Exit 7 /\
-  search_ids_fixed w_engine w_store w_rq_frame w_cands = [].
+  sketch_disjoint w_store w_rq_frame w_cands = true /\
+  candidate_filter w_store w_rq_frame w_cands = Cont (Some [0; 1]%N) /\
+  search_ids w_engine w_store w_rq_frame w_cands = [1%N] /\
+  search_ids (table_engine [3%N]) w_store w_rq_frame w_cands = [] /\
+  search_ids (table_engine [3%N]) w_store w_rq_ts w_cands = [].
 Proof. vm_compute. repeat split. Qed.
+
+(* ---- history: the composition before commit d76304f (fixed finding F-C11-1) -----------
+   candidate_filter_old / search_ids_old fall back to the sketch set in the
+   empty-intersection branch.  Kept so that a revert is recognisable: the correspondence
+   runners C11_run / C11_trunc_run (old code) disagree with the implementation there. *)
+
+(* the current composition differs from the old one only in that branch *)
+Lemma C11_agrees_with_old_outside_disjoint :
+  forall (st : store) (rq : request) (cands : list N),
+    sketch_disjoint st rq cands = false ->
+    candidate_filter st rq cands = candidate_filter_old st rq cands.
+Proof. exact agrees_with_old_outside_disjoint. Qed.
+Print Assumptions C11_agrees_with_old_outside_disjoint.
+
+(* the old code returned frame 3 for as_of_frame = 1 (and for as_of_ts = 25, frame 3 has
+   timestamp 40) *)
+Lemma C11_old_as_of_refuted :
+  exists (engine : option (list N) -> list N) (st : store) (rq : request) (cands : list N) (x : N) (f : frame),
+    (forall l y, In y (engine (Some l)) -> In y l) /\
+    NoDup (map f_id (st_frames st)) /\
+    rq_as_of_frame rq = Some 1%N /\
+    In x (search_ids_old engine st rq cands) /\
+    In f (st_frames st) /\ f_id f = x /\ (1 < f_id f)%N /\
+    sketch_disjoint st rq cands = true /\
+    replay_ids (st_frames st) (rq_as_of_frame rq) (rq_as_of_ts rq) = [0%N; 1%N] /\ cands = [3%N].
+Proof.
+  exists (table_engine [3%N]), w_store, w_rq_frame, w_cands, 3%N, (mkFrame 3 40 true).
+  split; [intros l y; apply table_engine_sound|].
+  split; [repeat constructor; cbn; intuition discriminate|].
+  vm_compute. repeat split; auto.
+Qed.
+Print Assumptions C11_old_as_of_refuted.
+
+Lemma C11_old_as_of_ts_refuted :
+  exists (engine : option (list N) -> list N) (st : store) (rq : request) (cands : list N) (x : N) (f : frame),
+    (forall l y, In y (engine (Some l)) -> In y l) /\
+    NoDup (map f_id (st_frames st)) /\
+    rq_as_of_ts rq = Some 25%Z /\
+    In x (search_ids_old engine st rq cands) /\
+    In f (st_frames st) /\ f_id f = x /\ (25 < f_ts f)%Z /\
+    sketch_disjoint st rq cands = true.
+Proof.
+  exists (table_engine [3%N]), w_store, w_rq_ts, w_cands, 3%N, (mkFrame 3 40 true).
+  split; [intros l y; apply table_engine_sound|].
+  split; [repeat constructor; cbn; intuition discriminate|].
+  vm_compute. repeat split; auto.
+Qed.
+Print Assumptions C11_old_as_of_ts_refuted.
+
+(* in that branch, with only as_of_* given, the old code handed the engine only ids outside
+   the replay set, and ran the request with and without as_of_* on the very same filter *)
+Lemma C11_old_fallback_characterised :
+  forall (st : store) (rq : request) (cands : list N) (x : N),
+    rq_date rq = None -> rq_temporal rq = None -> asof_given rq = true ->
+    sketch_disjoint st rq cands = true ->
+    candidate_filter_old st rq cands = Cont (Some cands) /\
+    candidate_filter_old st (drop_as_of rq) cands = Cont (Some cands) /\
+    (In x cands -> ~ In x (replay_ids (st_frames st) (rq_as_of_frame rq) (rq_as_of_ts rq))).
+Proof.
+  intros st rq cands x Hd Ht Ha Hk.
+  destruct (old_fallback_all_future st rq cands x Hd Ht Ha Hk) as [H1 H2].
+  destruct (old_fallback_ignores_asof st rq cands Hd Ht Hk) as [_ H3]. auto.
+Qed.
+Print Assumptions C11_old_fallback_characterised.
